@@ -57,6 +57,16 @@ func genUDPCase(r *Rng, prop string) udpCaseSpec {
 			expired = true
 			continue
 		}
+		if i > 1 && r.Chance(7) {
+			// a datagram to some client's NAT socket from a sender the client never addressed:
+			// it must reach that client (with the sender's address) and nobody else
+			prev := cs.Ops[r.Intn(len(cs.Ops))]
+			if prev.Kind == "honest" {
+				cs.Ops = append(cs.Ops, udpOp{Kind: "stray", Client: prev.Client, C: prev.C, S: prev.S, Key: prev.Key, StrayV6: r.Chance(40),
+					PLen: []int{0, 1, 100, 1400}[r.Intn(4)], PSeed: int(r.U64() % 1000000)})
+				continue
+			}
+		}
 		pick := cs.Cfg[r.Intn(len(cs.Cfg))]
 		akind := kinds[r.Intn(len(kinds))]
 		if r.Chance(45) { // mostly reachable-and-allowed targets, so that associations exist
@@ -168,6 +178,10 @@ func cUDPInto(ctx *Ctx, prop string, n int, shard int) {
 		var ot, bt []string
 		fw, rej := 0, 0
 		for i := range j.spec.Ops {
+			if j.spec.Ops[i].Skipped {
+				ctx.Count("op:stray-skipped")
+				continue
+			}
 			ot = append(ot, udpOpTerm(&j.spec.Ops[i], j.tports))
 			bt = append(bt, udpObsTerm(&j.obs[i]))
 			ctx.Count("op:" + j.spec.Ops[i].Kind)
@@ -233,6 +247,26 @@ func udpMonitors(ctx *Ctx, prop string, cs *udpCaseSpec, obs []udpOpObs, shutdow
 			continue
 		}
 		removes += ob.Removed
+		if ob.SaltReused {
+			ctx.Monitor("C03/reply-salt-reused", "two reply datagrams of one case start with the same salt", rep)
+		}
+		if op.Kind == "stray" {
+			if op.Skipped {
+				continue
+			}
+			if ob.Stray > 0 {
+				ctx.Monitor("C04/reply-to-wrong-client", "a datagram sent to one client's NAT socket arrived at another client", rep)
+			}
+			if a := live[op.Client]; a != nil && a.c == op.C && a.s == op.S {
+				if len(ob.Replies) != 1 || ob.Replies[0].Status != "OK" || !bytes.Equal(ob.Replies[0].Body, genBytes(op.PLen, uint32(op.PSeed))) {
+					ctx.Monitor("C04/datagram-from-other-sender-not-delivered", fmt.Sprintf("a datagram from another sender to the client's NAT socket was not delivered intact (%d reports)", len(ob.Replies)), rep)
+				} else if want := map[bool]int{false: 7, true: 19}[op.StrayV6]; len(ob.Replies[0].From) != want {
+					ctx.Monitor("C03/reply-sender-address", fmt.Sprintf("reply carries a %d-byte sender address, expected %d", len(ob.Replies[0].From), want), rep)
+				}
+			}
+			ctx.Count("op:stray")
+			continue
+		}
 		if ob.Stale > 0 {
 			ctx.Monitor("C03/unexpected-datagram-at-target", "a target received a datagram that no client operation accounts for", rep)
 		}
